@@ -876,7 +876,7 @@ fn real_oracle(c: &RealCase, cx: &mut CaseCtx) -> Result<(), String> {
     cx.nontrivial_if(reserved(&c.room) || reserved(&c.event) || reserved(&c.s1) || reserved(&c.s2) || !c.via.is_empty());
     cx.class_if(reserved(&c.room) || reserved(&c.event) || reserved(&c.s1), "reserved_char_in_field");
     let content: Raw<ruma_events::AnyMessageLikeEventContent> = Raw::from_json(serde_json::value::to_raw_value(&json!({"msgtype": "m.text", "body": c.s2})).unwrap());
-    match c.which % 11 {
+    match c.which % 13 {
         0 => {
             if c.s1.is_empty() {
                 return Ok(());
@@ -951,10 +951,20 @@ fn real_oracle(c: &RealCase, cx: &mut CaseCtx) -> Result<(), String> {
         9 => {
             // client error as a response, incl. M_LIMIT_EXCEEDED with whole-second Retry-After
             use capi::error::{Error as CErr, ErrorBody, ErrorKind, RetryAfter};
-            let kind = match c.n % 4 {
-                0 => ErrorKind::LimitExceeded { retry_after: Some(RetryAfter::Delay(std::time::Duration::from_secs((c.n / 4 % 1000) as u64))) },
+            // every error kind that carries data of its own, with the data present and absent
+            let kind = match c.n % 13 {
+                0 => ErrorKind::LimitExceeded { retry_after: Some(RetryAfter::Delay(std::time::Duration::from_secs((c.n / 13 % 1000) as u64))) },
                 1 => ErrorKind::LimitExceeded { retry_after: None },
                 2 => ErrorKind::forbidden(),
+                3 => ErrorKind::WrongRoomKeysVersion { current_version: Some(c.s1.clone()) },
+                4 => ErrorKind::WrongRoomKeysVersion { current_version: None },
+                5 => ErrorKind::BadStatus { status: Some(http::StatusCode::BAD_GATEWAY), body: Some(c.s1.clone()) },
+                6 => ErrorKind::BadStatus { status: None, body: None },
+                7 => ErrorKind::IncompatibleRoomVersion { room_version: ruma_common::RoomVersionId::V7 },
+                8 => ErrorKind::ResourceLimitExceeded { admin_contact: c.s1.clone() },
+                9 => ErrorKind::UnknownToken { soft_logout: true },
+                10 => ErrorKind::UnknownToken { soft_logout: false },
+                11 => ErrorKind::UserLocked,
                 _ => ErrorKind::NotFound,
             };
             let err = CErr::new(http::StatusCode::from_u16([429u16, 403, 404, 400][(c.n % 4) as usize]).unwrap(), ErrorBody::Standard { kind, message: c.s2.clone() });
@@ -970,7 +980,45 @@ fn real_oracle(c: &RealCase, cx: &mut CaseCtx) -> Result<(), String> {
             if http2.status() != parts.status || *http2.body() != body || http2.headers().get(http::header::RETRY_AFTER) != parts.headers.get(http::header::RETRY_AFTER) {
                 return Err(format!("client error response changed on the wire: sent {err:?}, received {err2:?}"));
             }
+            // ... and re-encoding alike is not enough: the received error must say what the sent one said
+            if format!("{:?}", err2.body) != format!("{:?}", err.body) {
+                return Err(format!("client error response lost or changed data on the wire: sent {:?}, received {:?}; body {:?}", err.body, err2.body, String::from_utf8_lossy(&body)));
+            }
             cx.class("real_error_response");
+        }
+        11 => {
+            // media download requests: query fields with documented defaults (timeout 20 s, flags)
+            // around their default values; the received request must equal the one sent
+            let ms = [0u64, 1, 19_999, 20_000, 20_001, 20_500, 20_999, 21_000, 60_000, 120_000][(c.n / 4) as usize % 10];
+            let server = user.server_name().to_owned();
+            let media = "AbCdEf0123".to_owned();
+            let mut req = capi::authenticated_media::get_content::v1::Request::new(media.clone(), server.clone());
+            req.timeout_ms = std::time::Duration::from_millis(ms);
+            let want = format!("{req:?}");
+            if let Some((r2, _)) = request_roundtrip(req, &v, cx)? {
+                if format!("{r2:?}") != want {
+                    return Err(format!("the received media download request differs from the one sent: sent {want}, received {r2:?}"));
+                }
+            }
+            let mut req = capi::authenticated_media::get_content_thumbnail::v1::Request::new(media.clone(), server.clone(), js_int::uint!(32), js_int::uint!(32));
+            req.timeout_ms = std::time::Duration::from_millis(ms);
+            req.animated = [None, Some(true), Some(false)][(c.n % 3) as usize];
+            let want = format!("{req:?}");
+            if let Some((r2, _)) = request_roundtrip(req, &v, cx)? {
+                if format!("{r2:?}") != want {
+                    return Err(format!("the received thumbnail request differs from the one sent: sent {want}, received {r2:?}"));
+                }
+            }
+            let mut req = ruma_federation_api::authenticated_media::get_content::v1::Request::new(media);
+            req.timeout_ms = std::time::Duration::from_millis(ms);
+            request_roundtrip_fed(req.clone(), &v, cx)?;
+            let http1 = ruma_common::api::OutgoingRequest::try_into_http_request::<Vec<u8>>(req.clone(), "https://hs.example", SendAccessToken::None, &v).map_err(|e| e.to_string())?;
+            let r2 = <ruma_federation_api::authenticated_media::get_content::v1::Request as IncomingRequest>::try_from_http_request(http1, &["AbCdEf0123"]).map_err(|e| format!("federation media request rejected by the receiving side: {e}"))?;
+            if format!("{r2:?}") != format!("{req:?}") {
+                return Err(format!("the received federation media request differs from the one sent: sent {req:?}, received {r2:?}"));
+            }
+            cx.class("real_media_download_requests");
+            cx.class_if((20_000..21_000).contains(&ms), "timeout_within_a_second_of_the_default");
         }
         _ => {
             use ruma_push_gateway_api::send_event_notification::v1 as pg;
@@ -1015,7 +1063,7 @@ where
 fn real_case() -> impl Strategy<Value = RealCase> {
     let hostile = || "[a-zA-Z0-9%/?#+&= \"é.-]{1,8}";
     (
-        0u8..11,
+        0u8..13,
         prop_oneof![vf_ref::idgen::room_id(), hostile().prop_map(|l| format!("!{l}:x.y"))],
         prop_oneof![vf_ref::idgen::user_id(), "[!-9;-~]{1,8}".prop_map(|l| format!("@{l}:x.y"))],
         prop_oneof![vf_ref::idgen::event_id(), hostile().prop_map(|l| format!("${l}"))],
